@@ -32,6 +32,8 @@ BOUNDS = {
 }
 ASSUMPTIONS = [
     "all int64 time values in [0, 2^62): numpy wrap-around is not modelled (inputs assumed in range)",
+    "time+length*dt encoding: length * dt <= 2^31 - 1 (strax.endtime multiplies int32 by int16 in int32; the region "
+    "beyond is decided natively by the `endtime` obligation, see known finding F-C17)",
     "documented preconditions only: sorted start times; non-overlapping containers for containment; "
     "positive lengths for containment / time-to-neighbour (zero-length intervals excluded, as in the "
     "repo's own hypothesis strategies)",
@@ -537,6 +539,41 @@ def _g_rows(tier, extra=None):
             if e == "end" or n in (2, 3)]
 
 
+# ---------------------------------------------------------------------------- endtime (width of length * dt)
+def sym_endtime(region):
+    """strax.endtime of a (time, length, dt) interval == time + length * dt.  The proxies are mathematical integers,
+    so a symbolic pass says nothing about machine width: the decision for each region comes from the native replay
+    of its path witness (length int32, dt int16, product computed by numpy / numba)."""
+    import strax
+
+    t = fresh_int("t", 0, 2**40)
+    l = fresh_int("l", 1, 2**31 - 1)
+    d = fresh_int("dt", 1, 2**15 - 1)
+    if region == "narrow":
+        assume(l * d <= 2**31 - 1)
+    else:
+        assume(l * d >= 2**31)  # both factors legal for their fields, the end time far below 2^63
+    a = arrays.make(H.DT_LEN, 1)
+    a["time"][0], a["length"][0], a["dt"][0] = t, l, d
+    e = strax.endtime(a)
+    prove(e[0] == t + l * d, "endtime:endtime != time + length * dt")
+    return region
+
+
+def nat_endtime(params, model):
+    import strax
+
+    a = np.zeros(1, dtype=H.DT_LEN)
+    a["time"], a["length"], a["dt"] = model["t"], model["l"], model["dt"]
+    want = model["t"] + model["l"] * model["dt"]
+    got = int(strax.endtime(a)[0])
+    got_rec = int(strax.endtime(a[0]))
+    ok = got == want and got_rec == want
+    return {"ok": ok, "label": "endtime:int32 overflow of length * dt",
+            "detail": f"time={model['t']} length={model['l']} dt={model['dt']}: endtime(array)={got} endtime(record)={got_rec} "
+                      f"want {want}"}
+
+
 OBLIGATIONS = [
     Ob("contain", sym_contain, _g_contain, nat_contain, setup=_setup,
        doc="fully_contained_in == first container with c.t<=t and e<=c.e, else -1"),
@@ -563,6 +600,8 @@ OBLIGATIONS = [
     Ob("sort", sym_sort, lambda tier: [dict(n=n, channels=c) for n in range(0, 4 if tier == "quick" else 5)
                                        for c in (False, True)],
        nat_sort, setup=_setup, doc="sort_by_time: permutation, ordered by (time, channel), stable"),
+    Ob("endtime", sym_endtime, lambda tier: [dict(region="narrow"), dict(region="wide")], nat_endtime, setup=_setup,
+       witnesses=2, doc="endtime == time + length*dt, decided natively per region (product below / above 2^31)"),
     Ob("twin_contain", sym_twin_contain, lambda tier: [dict(nt=2, nc=2)], None, setup=_setup, expect_cex=True),
 ]
 
